@@ -284,6 +284,8 @@ class FixedCalendar(IWorkCalendar):
     def __init__(self, units: float, start: Optional[datetime] = None, end: Optional[datetime] = None):
         if units < 0:
             raise RuntimeError("Value must be >= 0")
+        if start is not None and end is not None and start > end:
+            raise RuntimeError("Start after end")
 
         self.__units = units
         self.__start = start
